@@ -80,9 +80,17 @@ def finder_calls(rng: random.Random, mol, seg):
             qpos = [v - min(qpos) for v in qpos]
         if sorted(qpos) != qpos:
             continue
-        qry = SimpleNamespace(positions=qpos)
-        pairs = [SimpleNamespace(reference=SimpleNamespace(siteId=r0 + j), query=SimpleNamespace(siteId=j + 1))
-                 for j in range(n)]
+        if trial % 2 == 1:
+            # the same molecule read from its other end, aligned on the reverse strand: ascending reference labels,
+            # descending query labels (what AlignmentResultRow.alignedPairs lists for orientation '-')
+            top = qpos[-1] + rng.randint(0, 5000)
+            qry = SimpleNamespace(positions=[top - v for v in reversed(qpos)])
+            pairs = [SimpleNamespace(reference=SimpleNamespace(siteId=r0 + j), query=SimpleNamespace(siteId=n - j))
+                     for j in range(n)]
+        else:
+            qry = SimpleNamespace(positions=qpos)
+            pairs = [SimpleNamespace(reference=SimpleNamespace(siteId=r0 + j), query=SimpleNamespace(siteId=j + 1))
+                     for j in range(n)]
         al = SimpleNamespace(queryId=7, referenceId=2, alignedPairs=pairs)
         for which, finder, brk in (("molecule", mol.look_for_indels_in_breakage, {7: [b, pairs[b]]}),
                                    ("segment", seg.look_for_indels_in_breakage, {7: [[b, "x"]]})):
@@ -103,7 +111,8 @@ def run(ctx: Ctx):
     ctx.rule = ("sorted call lists MC_Indels enumerates (<=3-4 calls, 2 chromosomes; printed by TLC and scaled so that the "
                 "lattice blur equals the real PositionBlur) and random sorted lists of 0-12 calls on 3 chromosomes "
                 "through the real cluster_indels; both types through write_indel_file with the file parsed "
-                "independently; synthetic alignments with one break point (shifts 150 bp..150 kb) through both "
+                "independently; synthetic alignments of both orientations with one break point (shifts 150 bp..150 kb) "
+                "through both "
                 "look_for_indels_in_breakage. non-trivial = distinct list in which two consecutive calls are within "
                 "the blur of each other")
     ctx.assumptions = ["input lists are sorted by (chromosome, RefStop) as write_indel_file sorts them, RefStart <= RefStop",
